@@ -15,10 +15,19 @@ Only property theorems and their non-vacuity examples live here; helper lemmas a
 Store/NamespaceLemmas.lean (where the invariant `Inv` = "every class `__dict__` has unique keys and
 every cache is empty or equal to the fresh MRO walk" is defined).
 
-Both deviations found by this check on an earlier tree are repaired in /repo and the model follows
-the repaired code: a failing `add_parameter` puts the previous class attribute back (9350ff5), and
+Two deviations found by this check on an earlier tree are repaired in /repo and the model follows the
+repaired code: a failing `add_parameter` puts the previous class attribute back (9350ff5), and
 `values()`/serialisation of an unset `Dynamic`-type parameter read the class Parameter's default
-(9f6df2c).  The statements below therefore hold for ALL histories.
+(9f6df2c); a rejected class-level assignment removes its copy again (1e41598).
+
+NOT covered by the theorems, stated here so that nobody reads more into them:
+  * class-level assignment of a *Parameter object* (`C.y = param.Integer()`) is modelled
+    (`Op.clsSetParam`) and REFUTES the full statement (`C13_full_refuted`): that path clears no cache
+    (and leaves the Parameter unnamed).  `namespace_agrees_partial` excludes it.
+  * the hierarchy is fixed at the start of a history (no class-creation operation);
+  * `repr` and watcher registration are not modelled as separate consumers (they read the same
+    `objects('existing')` / `cls.param` dictionary as `values()`); the inherited `name` parameter,
+    `delattr`, `per_instance=False` and edits of a per-instance copy's `default` are outside the model.
 -/
 import ParamVerif.Store.NamespaceLemmas
 
@@ -105,7 +114,7 @@ theorem agrees_of_inv (s : St) (h : Inv s) (hi : InstOk s) : Agrees s := by
 declaring class or on a subclass (copy-on-write; a rejected one removes the copy again),
 `add_parameter` at any level (succeeding or raising), instance creation, instance assignment, `obj.param[n]` — keeps every cache empty or up to
 date. -/
-theorem step_preserves_inv (s : St) (op : Op) (h : Inv s) : Inv (step s op).1 := by
+theorem step_preserves_inv (s : St) (op : Op) (h : Inv s) (hop : op.assignsParam = false) : Inv (step s op).1 := by
   suffices H : ∀ s' r, step s op = (s', r) → Inv s' from H _ _ rfl
   intro s' r hstep
   cases op with
@@ -185,8 +194,17 @@ theorem step_preserves_inv (s : St) (op : Op) (h : Inv s) : Inv (step s op).1 :=
           simp only [Prod.mk.injEq] at hstep; rw [← hstep.1]
           exact inv_of_classes (instantiated_classes hinst) h1
 
+  | instBlock i =>
+    simp only [step] at hstep
+    split at hstep
+    · simp only [Prod.mk.injEq] at hstep; rw [← hstep.1]; exact h
+    · rename_i x _
+      simp only [Prod.mk.injEq] at hstep; rw [← hstep.1]; exact inv_nsRead h x.cls
+  | clsSetParam c n d hi => simp [Op.assignsParam] at hop
+
 /-- per-instance copies stay attached to names that are Parameters of the class -/
-theorem step_preserves_instOk (s : St) (op : Op) (h : Inv s) (hi : InstOk s) : InstOk (step s op).1 := by
+theorem step_preserves_instOk (s : St) (op : Op) (h : Inv s) (hi : InstOk s) (hop : op.assignsParam = false) :
+    InstOk (step s op).1 := by
   suffices H : ∀ s' r, step s op = (s', r) → InstOk s' from H _ _ rfl
   intro s' r hstep
   -- a new per-instance copy for a resolvable name
@@ -359,21 +377,35 @@ theorem step_preserves_instOk (s : St) (op : Op) (h : Inv s) (hi : InstOk s) : I
             | some po => rfl
           exact hcopy _ s2 i x n p _ h1 (by rw [e3]; exact hx) hd hinst
 
-/-- the invariants hold after any history -/
-theorem run_preserves_inv (ops : List Op) (s : St) (h : Inv s) (hi : InstOk s) :
-    Inv (run s ops) ∧ InstOk (run s ops) := by
+  | instBlock i =>
+    simp only [step] at hstep
+    split at hstep
+    · simp only [Prod.mk.injEq] at hstep; rw [← hstep.1]; exact hi
+    · rename_i x _
+      simp only [Prod.mk.injEq] at hstep; rw [← hstep.1]
+      obtain ⟨e1, e2, e3, _⟩ := nsRead_shape s x.cls
+      exact instOk_of e3 e1 (fun k n hk => by rw [e2]; exact hk) hi
+  | clsSetParam c n d hi' => simp [Op.assignsParam] at hop
+
+/-- the invariants hold after any history without a Parameter-valued class assignment -/
+theorem run_preserves_inv (ops : List Op) (s : St) (h : Inv s) (hi : InstOk s)
+    (hops : ops.all (fun op => !op.assignsParam) = true) : Inv (run s ops) ∧ InstOk (run s ops) := by
   induction ops generalizing s with
   | nil => exact ⟨by simpa [run] using h, by simpa [run] using hi⟩
   | cons op ops ih =>
+    simp only [List.all_cons, Bool.and_eq_true, Bool.not_eq_true'] at hops
     simp only [run, List.foldl_cons]
-    exact ih _ (step_preserves_inv s op h) (step_preserves_instOk s op h hi)
+    exact ih _ (step_preserves_inv s op h hops.1) (step_preserves_instOk s op h hi hops.1) hops.2
 
-/-- **C13 (all histories).**  After *any* interleaving of namespace reads, class-level assignments
-at every level, `add_parameter` at every level (whether it succeeds or raises), instance creation,
-instance assignments and `obj.param[n]` accesses, the `.param` namespace of every class and
-instance agrees with attribute access — for `Dynamic` Parameter types too. -/
-theorem namespace_agrees (s : St) (ops : List Op) (h : Inv s) (hi : InstOk s) : Agrees (run s ops) :=
-  agrees_of_inv _ (run_preserves_inv ops s h hi).1 (run_preserves_inv ops s h hi).2
+/-- **C13 (all histories), partial.**  After *any* interleaving of namespace reads (including
+`edit_constant` blocks, which read the class namespace), class-level assignments of values at every
+level, `add_parameter` at every level (whether it succeeds or raises), instance creation, instance
+assignments and `obj.param[n]` accesses, the `.param` namespace of every class and instance agrees
+with attribute access — for `Dynamic` Parameter types too.  Excluded: class-level assignment of a
+*Parameter object* (`C.y = param.Integer()`), see `C13_full_refuted`. -/
+theorem namespace_agrees_partial (s : St) (ops : List Op) (h : Inv s) (hi : InstOk s)
+    (hops : ops.all (fun op => !op.assignsParam) = true) : Agrees (run s ops) :=
+  agrees_of_inv _ (run_preserves_inv ops s h hi hops).1 (run_preserves_inv ops s h hi hops).2
 
 /-- freshly created classes (no cache computed yet, `__dict__`s are dicts) satisfy the invariant -/
 theorem fresh_inv (s : St) (hd : ∀ (c : CId) (k : Cls), s.classes[c]? = some k → (akeys k.dict).Nodup)
@@ -387,10 +419,6 @@ theorem fresh_instOk (s : St) (h : s.insts = []) : InstOk s := by
 /-- the statement of the property: from freshly created classes, after every history -/
 def C13_full : Prop :=
   ∀ (s : St) (ops : List Op), Inv s → s.insts = [] → Agrees (run s ops)
-
-/-- **C13, full statement: holds.** -/
-theorem C13_full_holds : C13_full :=
-  fun s ops h hi => namespace_agrees s ops h (fresh_instOk s hi)
 
 /-- A: x (default 1, upper bound 5);  B(A) -/
 def witnessClasses : St :=
@@ -410,6 +438,22 @@ theorem witnessClasses_inv : Inv witnessClasses := by
     | 0, hk => simp [witnessClasses] at hk; subst hk; rfl
     | 1, hk => simp [witnessClasses] at hk; subst hk; rfl
     | c + 2, hk => simp [witnessClasses] at hk
+
+/-- `list(A.param)`; `A.y = P(default=3)`: `A.y == 3` but `'y' not in A.param` (and not in `B.param`) -/
+def witnessParamAssign : List Op := [.read 0, .clsSetParam 0 "y" 3 none]
+
+/-- **C13, full statement: refuted.**  A class-level assignment of a Parameter object goes through
+the `else` branch of `ParameterizedMetaclass.__setattr__`, which clears no cache: once `C.param`
+has been read, the new Parameter is reachable as an attribute but not listed. -/
+theorem C13_full_refuted : ¬ C13_full := by
+  intro h
+  have := (h witnessClasses witnessParamAssign witnessClasses_inv rfl).getitem 0 "y"
+  revert this
+  decide
+
+/-- … while the same assignment before any namespace read is harmless at class level -/
+example : aget (nsView (run witnessClasses [.clsSetParam 0 "y" 3 none]) 1) "y" = some 1 ∧
+    staticAttr (run witnessClasses [.clsSetParam 0 "y" 3 none]) 1 "y" = some 1 := by decide
 
 /-! ### Non-vacuity: concrete hierarchies and histories that meet the hypotheses -/
 
